@@ -741,6 +741,20 @@ func stripErrors(v any) any {
 	}
 	res, ok := m["res"].([]any)
 	if !ok {
+		// results of the "files" op: a failed stage, or documents plus the output (or its error)
+		if _, isErr := m["err"]; isErr {
+			return map[string]any{"stage": m["stage"], "err": true}
+		}
+		if o, ok := m["out"].(map[string]any); ok {
+			if _, isErr := o["err"]; isErr {
+				cp := map[string]any{}
+				for k, x := range m {
+					cp[k] = x
+				}
+				cp["out"] = map[string]any{"err": true}
+				return cp
+			}
+		}
 		return v
 	}
 	out := make([]any, 0, len(res))
